@@ -21,6 +21,8 @@ Local Notation ml_elements := (RoundTripML.ml_elements eok0).
 Local Notation ml_line_layout := (RoundTripML.ml_line_layout etext0).
 Local Notation ml_value_layout := (RoundTripML.ml_value_layout etext0).
 Local Notation ml_resource := (RoundTripML.ml_resource eok0).
+Local Notation text_ok := (RoundTripML.text_ok (goodd 0)).
+Local Notation srel := (RoundTripML.srel (goodd 0)).
 
 (* ---------------------------------------------------------------------------------------------- *)
 (* 1. The canonical text of a (joined) pattern at indentation B: every line after a line break is    *)
@@ -318,7 +320,7 @@ Definition sml_resource (t : resource) : bool := g_resource sml_pok t.
 
 Lemma text_okb_spec el : text_okb el = true <-> text_ok el.
 Proof.
-  destruct el as [v|e]; cbn [text_okb text_ok]; [|split; auto]. unfold lf_last. split.
+  destruct el as [v|e]; cbn [text_okb RoundTripML.text_ok goodd]; [|split; [intros _; exact Logic.I | reflexivity]]. unfold lf_last. split.
   - intros H. apply andb_prop in H as [H1 H2]. apply negb_true_iff in H2. split; [destruct v; [discriminate H1 | discriminate] | exact H2].
   - intros [H1 H2]. rewrite H2. destruct v; [congruence | reflexivity].
 Qed.
@@ -457,7 +459,7 @@ Lemma sml_pok_final els : sml_pok els = true -> els <> [] /\ no_final_lf els.
 Proof.
   intros H. destruct (sml_pok_parts els H) as (Hp & Hok & _). destruct (ml_pattern_parts eok0 _ Hp) as (Hne & _ & _ & Hl & _).
   split; [intros ->; apply Hne; reflexivity|].
-  apply no_final_lf_join; [apply (Forall_impl _ text_ok_nonempty Hok) | apply ml_last_ok_no_final_lf, Hl].
+  apply no_final_lf_join; [apply (Forall_impl _ (text_ok_nonempty (goodd 0)) Hok) | apply ml_last_ok_no_final_lf, Hl].
 Qed.
 
 (* ---- the start of the value is the same for the split and the joined elements ---- *)
@@ -487,7 +489,7 @@ Lemma serialize_split_pattern els x : sml_pok els = true -> mid_line x ->
 Proof.
   intros Hp [H10 H13]. destruct (sml_pok_parts els Hp) as (Hml & Hok & Hsplit). destruct (sml_pok_final els Hp) as [Hne Hfin].
   rewrite serialize_pattern_els. unfold sml_ptext.
-  rewrite (starts_on_new_line_join els (Forall_impl _ text_ok_nonempty Hok)).
+  rewrite (starts_on_new_line_join els (Forall_impl _ (text_ok_nonempty (goodd 0)) Hok)).
   set (B := 4 * S (indent_level x)).
   destruct (starts_on_new_line (Pattern els)).
   - unfold wseq at 1. unfold wseq at 1. rewrite (newline_plain x H13). cbn [obind]. unfold indent at 1. cbn [obind rbuf indent_level].
@@ -540,7 +542,7 @@ Definition rel2 (els'' els : list pattern_element) : Prop := stream els'' = stre
 
 Lemma split_join_elements els : Forall split_el els -> Forall text_ok els -> join_elements els = unstream (stream els).
 Proof.
-  intros Hsp Hok. rewrite <- (join_unstream els (Forall_impl _ text_ok_nonempty Hok)), (split_join_map els Hsp). reflexivity.
+  intros Hsp Hok. rewrite <- (join_unstream els (Forall_impl _ (text_ok_nonempty (goodd 0)) Hok)), (split_join_map els Hsp). reflexivity.
 Qed.
 
 Lemma rel2_split els'' els : rel2 els'' els -> sml_pok els = true -> Forall split_el els''.
@@ -582,7 +584,7 @@ Lemma sml_get_pattern bs els V T used c nx p n :
   exists els', get_pattern bs n p = Ok (Some (Pattern els')) (used + (length V + p)) /\ rel2 els' els.
 Proof.
   intros Hp HV HT H Hn. destruct (sml_pok_parts els Hp) as (Hml & _). destruct (facts_all 0) as (R & J & W & P).
-  destruct (get_pattern_ml eok0 etext0 R J P bs (join_elements els) V T used c nx p n Hml HV HT H Hn) as (els' & E & _ & Hok & Hst).
+  destruct (get_pattern_ml eok0 etext0 (goodd 0) R J P bs (join_elements els) V T used c nx p n Hml HV HT H Hn) as (els' & E & _ & Hok & Hst).
   exists els'. split; [exact E|]. split; [rewrite Hst; apply stream_join | exact Hok].
 Qed.
 
